@@ -29,3 +29,39 @@ Definition auth_ops (r : qroute) (has_sender acl_changed : bool) : list N :=
 
 Definition run_query (r : qroute) (has_sender acl_changed : bool) (body : list N) : list N :=
   through true (auth_ops r has_sender acl_changed ++ body).
+
+(* ---- the same with data: what the peer sees, what the body reads ------------------------------ *)
+(* stub operations with their data; the peer's stub reads committed state only (a simulation never reads its own
+   writes), buffers writes / deletes, keeps the last event and passes everything else on *)
+Inductive qop :=
+| QPut (k : N) (v : list N) | QDel (k : N) | QEvent (n : N) (v : list N)
+| QOtherWrite (o : N)                       (* validation parameters, private-data writes: operations 3..7 *)
+| QGet (k : N) | QOtherRead (o : N).
+
+Definition op_no (o : qop) : N :=
+  match o with QPut _ _ => 1 | QDel _ => 2 | QEvent _ _ => 8 | QOtherWrite o => o | QGet _ => 20 | QOtherRead o => o end%N.
+
+Record peer := Peer { committed : gmap N (list N); writes : list (N * option (list N)); event : option (N * list N); others : list N }.
+
+Definition peer_step (p : peer) (o : qop) : peer * option (list N) :=
+  match o with
+  | QPut k v => (Peer (committed p) (writes p ++ [(k, Some v)]) (event p) (others p), None)
+  | QDel k => (Peer (committed p) (writes p ++ [(k, None)]) (event p) (others p), None)
+  | QEvent n v => (Peer (committed p) (writes p) (Some (n, v)) (others p), None)
+  | QOtherWrite x => (Peer (committed p) (writes p) (event p) (others p ++ [x]), None)
+  | QGet k => (p, Some (default [] (committed p !! k)))
+  | QOtherRead _ => (p, None)
+  end.
+
+Definition is_write (o : qop) : bool := match o with QGet _ | QOtherRead _ => false | _ => true end.
+
+(* core/query_stub.go: the eight mutating methods answer nil without touching the stub underneath *)
+Definition wrapped_step (p : peer) (o : qop) : peer * option (list N) :=
+  if is_write o then (p, None) else peer_step p o.
+
+Fixpoint run_with (step : peer -> qop -> peer * option (list N)) (p : peer) (body : list qop) : peer * list (option (list N)) :=
+  match body with
+  | [] => (p, [])
+  | o :: r => let '(p', x) := step p o in let '(p'', xs) := run_with step p' r in (p'', x :: xs)
+  end.
+
